@@ -9,7 +9,11 @@ PURE = [("C20", "implies(seed is not None and seed != 0, not used_urandom())")]
 
 
 def rng(cls, self_fields=None, requires=(), loops=None, return_hints=(), ensures=None, extra=None):
+  ctor = {"TruncLcgRand": "TruncLcgRand(self_output_size)", "LcgNist": "LcgNist(self_a)",
+          "Mwc": "Mwc(self_a, self_b)", "Lehmer": "Lehmer(self_a, self_mod, self_bits)",
+          "SubsetSum": "SubsetSum(self_bits, self_n)", "NumpyRng": "Pcg64()"}.get(cls, cls + "()")
   ns = dict(params=dict(P), returns="int", self_fields=dict(self_fields or {}), requires=["n >= 1"] + list(requires),
+            replay_self=ctor,
             ensures=list(FITS if ensures is None else ensures) + (list(PURE) if cls not in ("Urandom", "SubsetSum") else []),
             loops=dict(loops or {}),
             return_hints=list(return_hints), props=["C20"])
